@@ -104,3 +104,42 @@ def rule_orders():
             assert CFG(g, {t: lit(t) for t in terms}).is_reduced()
             out.append(tuple((l, tuple(r)) for l, r in g))
     return out
+
+
+# ---- error-recovery corpus: forks before the error point, several errors per input -----------------------
+RECOVERY = [
+    # two heads in different states at the first error; only one of them can resume
+    (("S", ("A", "c", "d", "C")), ("S", ("B", "c", "e", "C")), ("A", ("a",)), ("B", ("a",)), ("C", ("k", "m"))),
+    (("S", ("A", "a", "b", "C")), ("S", ("B", "a", "a", "C")), ("A", ("b",)), ("B", ("b",)), ("C", ("a", "b"))),
+    (("S", ("S", "a", "S")), ("S", ("b",))),
+    (("S", ("a", "S", "b")), ("S", ("a", "b"))),
+    (("S", ("A", "B")), ("A", ("a", "A")), ("A", ("a",)), ("B", ("b", "B")), ("B", ("b",))),
+]
+
+
+def recovery_inputs(cfg, max_sentence=6, junk="x"):
+    """sentences up to max_sentence, each corrupted by one or two junk insertions / substitutions"""
+    import itertools
+    sents = []
+    alpha = sorted(cfg.terms)
+    for L in range(1, max_sentence + 1):
+        for w in itertools.product(alpha, repeat=L):
+            w = "".join(w)
+            if cfg.lattice(w).earley()["accepted"]:
+                sents.append(w)
+    out = []
+    seen = set()
+    for w in sents:
+        cands = [w]
+        for i in range(len(w) + 1):
+            cands.append(w[:i] + junk + w[i:])
+            if i < len(w):
+                cands.append(w[:i] + junk + w[i + 1:])
+            for j in range(i + 1, len(w) + 1):
+                cands.append(w[:i] + junk + w[i:j] + junk + w[j:])
+        for c in cands:
+            for v in (c, " ".join(c)):
+                if v not in seen:
+                    seen.add(v)
+                    out.append(v)
+    return out
